@@ -5,10 +5,14 @@ Core Lean only.
 * every experiment has its own folder `<out>/<name>/` (path classes of Model/Resume.lean, one copy per experiment);
   `.params` is one file for the whole invocation;
 * a fresh run removes the lock files of *every* experiment (remove_previous_run_locks), saves `.params` once, then
-  processes the experiments one after the other: for each, everything `stages` lists after the `.params` stage and the
-  reference stage (`refStage`: once per invocation, in the top-level folder — a plain-gzip reference is **not** part of
-  this model of several experiments, `Cfg.gzRef` is ignored here), in the experiment's own folder; a resumed invocation loads and re-saves `.params`, then goes through **every** experiment
-  again with `--resume` semantics, from whatever its folder holds;
+  runs the reference stage (`refStage`: `DatasetProcessor.__init__`, **once per invocation**, before the first experiment,
+  in the top-level folder: the unpacked copy of a plain-gzip reference and an index inside the folder are files of the
+  invocation like `.params`, every experiment reads them), then processes the experiments one after the other: for each,
+  everything `stages` lists after the `.params` stage and the reference stage, in the experiment's own folder; a resumed
+  invocation loads and re-saves `.params`, runs the reference stage again, then goes through **every** experiment again
+  with `--resume` semantics, from whatever its folder holds;
+* the reference is one per invocation: `Cfg.gzRef` / `Cfg.idx` of the *first* experiment say what the reference stage does
+  (well-formed invocations — `MWF`, Props/C07Multi.lean — have the same two flags in every experiment);
 * what the experiments share besides `.params` is the state of the process: the alignment counter.  `withCarried` sets
   `Cfg.carried` of every experiment: an earlier experiment of the invocation has unaligned reads (the counter is not
   zero when this experiment starts unless it is reset — `Variant.resetCounter`);
@@ -19,19 +23,29 @@ import IsoVerif.Model.Resume
 
 namespace IsoVerif.Model.Resume
 
+/-- the files of the reference stage: the unpacked copy of a plain-gzip reference, the index (file and content), the
+    temporary index — top-level files of the invocation, one copy for all experiments -/
+def isRefPath : Path → Bool
+  | .refFa | .refFai | .refFaiData | .refFaiTmp => true
+  | _ => false
+
 /-- the output folder of an invocation with several experiments -/
 structure MFS where
   params : Option Tok
-  dirs : Nat → FS          -- the folder of experiment `i` (its `.params` entry is never looked at)
+  ref : FS                 -- the top-level files of the reference stage (only the `isRefPath` entries are looked at)
+  dirs : Nat → FS          -- the folder of experiment `i` (its `.params` and `isRefPath` entries are never looked at)
 
-def MFS.empty : MFS := ⟨none, fun _ => FS.empty⟩
+def MFS.empty : MFS := ⟨none, FS.empty, fun _ => FS.empty⟩
 
-/-- the folder of experiment `i` as the run of that experiment sees it: its own files and the shared `.params` -/
-def MFS.view (m : MFS) (i : Nat) : FS := fun p => if p = .params then m.params else m.dirs i p
+/-- the folder of experiment `i` as the run of that experiment sees it: its own files, the shared `.params` and the
+    shared files of the reference stage -/
+def MFS.view (m : MFS) (i : Nat) : FS := fun p =>
+  if p = .params then m.params else if isRefPath p then m.ref p else m.dirs i p
 
-/-- an event of experiment `i` -/
+/-- an event of experiment `i` (an event on a shared file is seen by every experiment) -/
 def MFS.apply (m : MFS) (i : Nat) (e : Ev) : MFS :=
   if e.path = .params then { m with params := e.val }
+  else if isRefPath e.path then { m with ref := Resume.apply m.ref e }
   else { m with dirs := fun j => if j = i then Resume.apply (m.dirs i) e else m.dirs j }
 
 abbrev MEv := Nat × Ev
@@ -69,6 +83,13 @@ def cleanAllEvents (v : Variant) (resume : Bool) (exps : List Exp) (m : MFS) : L
 /-- isoquant.py: `--resume` unpickles `.params`; save_params rewrites it (once per invocation) -/
 def paramsEvents (v : Variant) : List MEv := (paramsEvs v).map (fun e => (0, e))
 
+/-- DatasetProcessor.__init__: the reference stage, once per invocation (the reference is that of the first experiment:
+    one `--reference` per invocation), on the top-level folder -/
+def runRef (v : Variant) (resume : Bool) (exps : List Exp) (m : MFS) : Res :=
+  match exps with
+  | [] => ⟨[], m.view 0, true⟩
+  | x :: _ => runActs (refStage v x.2.1 resume (m.view x.1)) (m.view x.1)
+
 /-- one invocation on the folder `m` -/
 def runMulti (v : Variant) (exps : List Exp) (resume : Bool) (m : MFS) : MRes :=
   let c := cleanAllEvents v resume exps m
@@ -76,8 +97,13 @@ def runMulti (v : Variant) (exps : List Exp) (resume : Bool) (m : MFS) : MRes :=
   if resume && !(m1.view 0).loadable .params then ⟨c, m1, false⟩
   else
     let m2 := mApplyAll m1 (paramsEvents v)
-    let r := runExps v resume exps m2
-    ⟨c ++ paramsEvents v ++ r.evs, r.fs, r.ok⟩
+    let rr := runRef v resume exps m2
+    let re := rr.evs.map (fun e => (0, e))
+    let m3 := mApplyAll m2 re
+    if rr.ok then
+      let r := runExps v resume exps m3
+      ⟨c ++ paramsEvents v ++ (re ++ r.evs), r.fs, r.ok⟩
+    else ⟨c ++ paramsEvents v ++ re, m3, false⟩
 
 /-- `Cfg.carried` of every experiment: an earlier experiment of the invocation has unaligned reads -/
 def withCarried : Bool → List Cfg → List Cfg
